@@ -1,4 +1,5 @@
 """C17 — re-running is idempotent and the output depends only on the latest inputs (cli/src/writer.rs)."""
+import re
 import time
 from common import *
 from syn_gen import *
@@ -66,6 +67,308 @@ def outputs_of(dirpath):
             st = os.stat(p)
             res[f] = (open(p, "rb").read().decode("utf-8", "replace"), st.st_mtime_ns)
     return res
+
+
+# ----------------------------------------------------------------------------- versions whose content changes *kind*
+
+# the back ends that emit `#[typeshare]` constants; Kotlin, Swift and Scala reject them with a diagnostic (write_const)
+CONST_LANGS = ("typescript", "go", "python")
+
+# what a crate can hold in one version.  `ordinary` is a mix of every kind the language accepts; the others change the *kind* of
+# content the crate contributes (the core ones first: every history draws its shapes from this deck in this order, shuffled
+# within the two groups)
+CORE_SHAPES = ["constants-only", "aliases-only", "nothing-annotated", "rejected-only", "types-moved-to-neighbour"]
+MORE_SHAPES = ["structs-only", "enums-only", "aliases-and-constants", "one-kind-removed", "one-item-left", "empty-file",
+               "absent", "unannotated-no-mention"]
+
+
+def module_file(lang, crate):
+    """the module file of a crate in folder mode (cli/src/parse.rs output_file_name; the crate names used here are plain words)"""
+    snake = crate.replace("-", "_")
+    if lang == "swift":
+        return "".join(w[:1].upper() + w[1:] for w in snake.split("_")) + ".swift"
+    return "%s.%s" % (snake, EXT[lang])
+
+
+def unannotated(item):
+    """the same item without its `#[typeshare…]` attributes: plain Rust that typeshare does not look at"""
+    it = dict(item)
+    it["attrs"] = [a for a in item["attrs"] if not (a[0] in ("p", "l", "nv") and a[1] and a[1][0] == "typeshare")]
+    return it
+
+
+def crate_pool(rng, words):
+    """the items one crate can hold, generated once per history (two structs, an enum, two aliases, two constants, one struct the
+    language rejects): between versions only the *selection* and the annotation change, never an item's text"""
+    g = Gen(rng, p_serialized_as=0.0, p_decorators=0.0, p_type_decorators=0.0, p_redacted=0.0, p_const=0.0, p_cfg=0.0,
+            p_rename=0.0, p_noise=0.0, p_mod=0.0)
+    kinds = ["struct", "struct", "enum", "alias", "alias", "const", "const"]
+    names = dict(zip(words, kinds))
+    scope = {"types": [w for w in words if names[w] != "const"], "generics": [], "generic_types": {}}
+    pool = {"struct": [], "enum": [], "alias": [], "const": []}
+    for w in words:
+        it = getattr(g, names[w])(w, scope)
+        n = len([x for x in it.get("generics", []) if x[0] == "ty"])
+        if n:
+            scope["generic_types"][w] = n
+        pool[names[w]].append(it)
+    # an item every back end rejects at generation time: a field of type u64 (no mapping configured)
+    pool["rejected"] = [{"kind": "struct", "attrs": [m_path("typeshare")], "ident": words[0] + "Wide", "generics": [],
+                         "fields": ("named", [field([], "wide", t_path("u64"))])}]
+    return pool
+
+
+def accepted_pool(check, rng, words, lang):
+    """a pool whose structs, enums, aliases (and constants, where the language has them) the language accepts - asked of the binary
+    itself with one run over all of them - so that a run fails only where a shape says so (`rejected-only`, a constant for Kotlin /
+    Swift / Scala)"""
+    for _ in range(12):
+        pool = crate_pool(rng, words)
+        items = pool["struct"] + pool["enum"] + pool["alias"] + (pool["const"] if lang in CONST_LANGS else [])
+        with Scratch() as sc:
+            sc.write("ws/probe/src/lib.rs", render_file({"attrs": [], "items": items}))
+            r = run_cli(["--lang", lang, "-o", sc.path("probe." + EXT[lang])] + lang_args(lang) + [sc.path("ws")], cwd=sc.dir)
+        if r["rc"] == 0:
+            return pool
+        check.count("content-kind-pool-regenerated")
+    return pool
+
+
+def shape_items(rng, pool, shape, lang):
+    """-> [(item, annotated?)] for one crate in one version"""
+    S_, E_, A_, K_ = pool["struct"], pool["enum"], pool["alias"], pool["const"]
+    consts = lang in CONST_LANGS
+    ordinary = [(i, True) for i in S_ + E_ + A_ + (K_[:1] if consts else [])]
+    if shape == "ordinary":
+        got = list(ordinary)
+        if rng.random() < 0.5:
+            got.insert(rng.randint(0, len(got)), (unannotated(dict(S_[0], ident=S_[0]["ident"] + "Plain")), False))
+        return got
+    if shape == "constants-only":
+        return [(i, True) for i in K_]
+    if shape == "types-moved-to-neighbour":
+        # what stays behind: the constants, or - where the language has none - only plain Rust (the crate contributes nothing now)
+        return [(i, True) for i in K_] if consts else [(unannotated(S_[0]), False)]
+    if shape == "aliases-only":
+        return [(i, True) for i in A_]
+    if shape == "structs-only":
+        return [(i, True) for i in S_]
+    if shape == "enums-only":
+        return [(i, True) for i in E_]
+    if shape == "aliases-and-constants":
+        return [(i, True) for i in A_ + K_]
+    if shape == "one-kind-removed":
+        gone = rng.choice(["struct", "enum", "alias"] + (["const"] if consts else []))
+        return [(i, True) for i in S_ + E_ + A_ + (K_ if consts else []) if i["kind"] != gone]
+    if shape == "one-item-left":
+        return [(rng.choice(S_ + E_ + A_ + (K_ if consts else [])), True)]
+    if shape in ("nothing-annotated", "unannotated-no-mention"):
+        return [(unannotated(i), False) for i, _ in ordinary]
+    if shape == "rejected-only":
+        # a u64 field (no mapping configured) for every language; for Kotlin / Swift / Scala also: a constant
+        return [(i, True) for i in (pool["rejected"] if consts or rng.random() < 0.5 else K_[:1])]
+    if shape in ("empty-file", "absent"):
+        return []
+    raise ValueError(shape)
+
+
+def kind_version(rng, crates, pools, shapes, lang):
+    """one version of the workspace: crate -> source text, and what the generator knows about it (the shape and the names of the
+    annotated items per crate).  `types-moved-to-neighbour`: the crate keeps its constants, its structs / enums / aliases are now
+    declared in the next crate (the refactoring `move the types to another crate`)."""
+    texts, facts = {}, {}
+    guests = {c: [] for c in crates}
+    for i, c in enumerate(crates):
+        if shapes[c] == "types-moved-to-neighbour" and len(crates) > 1:
+            host = crates[(i + 1) % len(crates)]
+            if shapes[host] != "absent":
+                guests[host] += [(it, True) for it in pools[c]["struct"] + pools[c]["enum"] + pools[c]["alias"]]
+    for c in crates:
+        items = shape_items(rng, pools[c], shapes[c], lang) + guests[c]
+        facts[c] = {"shape": shapes[c], "annotated": [it["ident"] for it, ann in items if ann]}
+        if shapes[c] == "absent" and not guests[c]:
+            continue
+        text = render_file({"attrs": [], "items": [it for it, _ in items]})
+        if shapes[c] == "unannotated-no-mention":
+            text = text.replace("typeshare::", "")       # qualified I54 / U53: the file does not even contain the word
+        elif shapes[c] != "empty-file" and rng.random() < 0.5:
+            text = "use typeshare::typeshare;\n\n" + text
+        texts[c] = text
+    return texts, facts
+
+
+def content_kind_part(check):
+    """The dimension: *what kind of content* a crate contributes changes between the versions of a history.  The histories of `run`
+    are made of versions that all hold structs / enums / aliases in every crate; here every crate walks through shapes - ordinary
+    mix, constants only, aliases only, structs only, enums only, aliases and constants, one kind removed, one item left, every
+    item un-annotated (with and without the word `typeshare` left in the file), an empty file, the crate gone, only items the
+    language rejects (a constant for Kotlin / Swift / Scala, a u64 field for all), the types moved to the neighbouring crate while
+    the constants stay - interleaved with ordinary content, in folder mode (2-3 crates) and single-file mode (1-2 crates), all six
+    languages, with a return to an earlier version and an immediate re-run in every history.
+
+    Demanded after every run (the oracle, judged on what the binary left on disk):
+      * the exit status is the one of a run of the same version into an empty location;
+      * every file the run is responsible for has exactly the bytes that reference run produces, where *responsible for* is:
+        every file the reference run writes (also the partial output of a run that fails midway), and, when the run succeeds,
+        the single output file resp. in folder mode the module of every crate whose latest sources hold at least one annotated
+        item (a successful run has accepted every annotated item, so such a crate contributes declarations).  A module that is on
+        disk although the reference run writes none is the content of an earlier run.  Files of earlier runs whose crate has no
+        annotated item any more (everything un-annotated, file emptied, crate gone) are *not* the last run's: typeshare leaves
+        them alone, and so does this part;
+      * a re-run on unchanged sources leaves every file byte-identical with its ns-mtime.
+    Kept beside it: the Writer model fed with the reference outputs predicts files, bytes and which files are rewritten (a
+    difference there alone is reported without a failing input), and the assumption `generate_nonempty` of the theorems - a crate
+    with annotated items gets a non-empty module from a run into an empty folder - is checked on every reference run."""
+    rng = check.rng
+    nh = 72 if check.thorough else 12
+    OLD_SOURCES[0] = False
+    NEST_OUT[0] = False
+    for h in range(nh):
+        if check.has_failing():
+            break
+        lang = LANGS[h % 6]
+        multi = (h + h // 6) % 3 != 2       # two folder-mode histories for every single-file one, every language in both modes
+        crates = (["limits", "api", "core-types"][:rng.choice([2, 3, 3])] if multi else ["one", "two"][:rng.choice([1, 1, 2])])
+        rng.shuffle(crates)
+        words = rng.sample(TYPE_WORDS, 7 * len(crates))
+        pools = {c: accepted_pool(check, rng, words[7 * i:7 * i + 7], lang) for i, c in enumerate(crates)}
+        core, more = list(CORE_SHAPES), list(MORE_SHAPES)
+        rng.shuffle(core); rng.shuffle(more)
+        deck = [s for s in core + more
+                if not (s in ("absent", "types-moved-to-neighbour") and len(crates) < 2)
+                and not (s in ("constants-only", "aliases-and-constants") and lang not in CONST_LANGS)]
+        nsteps = rng.randint(5, 7) if check.thorough else rng.randint(4, 5)
+        versions, facts = [], []
+        for step in range(nsteps):
+            shapes = {}
+            for c in crates:
+                if step == 0 or not deck or rng.random() < 0.3:
+                    shapes[c] = "ordinary"
+                else:
+                    shapes[c] = deck.pop(0)
+            if step and all(s == "ordinary" for s in shapes.values()) and deck:
+                shapes[rng.choice(crates)] = deck.pop(0)
+            v, f = kind_version(rng, crates, pools, shapes, lang)
+            versions.append(v); facts.append(f)
+            for c in crates:
+                check.count("content-kind-shape-" + shapes[c])
+        hist = list(range(nsteps))
+        hist.insert(rng.randint(2, len(hist)), rng.randrange(0, 2))        # a return to an early version (0 = all ordinary)
+        k = rng.randrange(len(hist))
+        hist.insert(k, hist[k])                                           # an immediate re-run on unchanged inputs
+        check.saw(("content-kind", lang, multi, tuple(hist), json.dumps(versions, sort_keys=True)), nontrivial=True)
+        check.count("content-kind-%s-%s" % (lang, "multi" if multi else "single"))
+        out_name = "out.%s" % EXT[lang]
+        with Scratch() as sc:
+            ref = {}
+            for vi in sorted(set(hist)):
+                write_tree(sc, "ws", versions[vi])
+                tgt = ["-d", sc.path("ref%d" % vi)] if multi else ["-o", sc.path("ref%d/%s" % (vi, out_name))]
+                r = run_cli(["--lang", lang] + tgt + lang_args(lang) + [sc.path("ws")], cwd=sc.dir)
+                ref[vi] = (r["rc"], outputs_of(sc.path("ref%d" % vi)), r["err"][-600:])
+            fs_model, real_prev, prev_vi = [], {}, None
+            for step, vi in enumerate(hist):
+                write_tree(sc, "ws", versions[vi])
+                time.sleep(0.02)
+                os.makedirs(sc.path("out"), exist_ok=True)
+                tgt = ["-d", sc.path("out")] if multi else ["-o", sc.path("out/" + out_name)]
+                r = run_cli(["--lang", lang] + tgt + lang_args(lang) + [sc.path("ws")], cwd=sc.dir)
+                real = outputs_of(sc.path("out"))
+                rc_ref, outs_ref, err_ref = ref[vi]
+                check.count("content-kind-run-%s" % ("succeeds" if rc_ref == 0 else "fails"))
+                case = {"part": "content-kind", "lang": lang, "multi_file": multi, "crates": crates, "versions": versions,
+                        "what_each_version_holds": facts, "history": hist, "step": step,
+                        "command": "typeshare --lang %s %s %s ws   (after writing version history[step] to ws/<crate>/src/lib.rs; "
+                                   "the same destination for every step)" % (lang, "-d out" if multi else "-o out/" + out_name,
+                                                                             " ".join(lang_args(lang)))}
+                impl = {"rc": r["rc"], "files": {f: {"mtime_ns": mt, "bytes": b[:2000]} for f, (b, mt) in real.items()},
+                        "stderr": r["err"][-1000:],
+                        "reference_run_into_an_empty_location": {"rc": rc_ref, "files": {f: b[:2000] for f, (b, _) in outs_ref.items()},
+                                                                 "stderr": err_ref}}
+                where = "history %s, step %d (%s, %s; shapes now %s)" % (
+                    hist, step, lang, "-d" if multi else "-o", {c: facts[vi][c]["shape"] for c in crates})
+                # ---- the oracle
+                responsible = {f: "a run into an empty location writes it" for f in outs_ref}
+                if r["rc"] == 0 and rc_ref == 0:
+                    if multi:
+                        for c in crates:
+                            if facts[vi][c]["annotated"]:
+                                responsible.setdefault(module_file(lang, c), "the module of crate `%s`, whose latest sources hold the "
+                                                       "annotated items %s" % (c, facts[vi][c]["annotated"]))
+                    else:
+                        responsible.setdefault(out_name, "the output file of a run that succeeded")
+                problem, assumption = None, None
+                if r["rc"] != rc_ref:
+                    problem = "exit status %s, a run of the same sources into an empty location had %s" % (r["rc"], rc_ref)
+                for f, why in sorted(responsible.items()):
+                    if problem:
+                        break
+                    fresh, have = outs_ref.get(f), real.get(f)
+                    if fresh is None and have is None:
+                        assumption = "%s (%s) is written neither here nor by a run into an empty location" % (f, why)
+                    elif fresh is None:
+                        crate_now = set(n.lower() for c in crates if not multi or module_file(lang, c) == f for n in facts[vi][c]["annotated"])
+                        old = sorted(set(n for fv in facts for c in crates for n in fv[c]["annotated"]
+                                         if n.lower() not in crate_now and re.search(r"(?i)\b%s\b" % re.escape(n), have[0])))
+                        problem = ("%s is %s, yet what is on disk after this run is the content of an earlier run%s: a run of the "
+                                   "latest sources into an empty location writes no %s at all, so the latest items of the crate are "
+                                   "not in it" % (f, why, " (it still declares %s, which the latest sources behind this file do not hold)" % old
+                                                  if old else "", f))
+                    elif have is None:
+                        problem = "%s (%s) is missing; a run into an empty location writes it" % (f, why)
+                    elif have[0] != fresh[0]:
+                        problem = "%s (%s) does not have the content a run into an empty location produces" % (f, why)
+                if problem is None and prev_vi == vi:
+                    for f in sorted(set(real) | set(real_prev)):
+                        if f not in real or f not in real_prev or real[f][0] != real_prev[f][0]:
+                            problem = "re-run on unchanged sources: %s changed" % f
+                        elif real[f][1] != real_prev[f][1]:
+                            if f == "Codable.swift" and check.known("swift-codable-rewritten", {"history": hist, "step": step}):
+                                continue
+                            problem = "re-run on unchanged sources: %s was rewritten (mtime changed)" % f
+                        if problem:
+                            break
+                # ---- the model: Writer.run on the reference outputs (in path order = crate order)
+                outs = sorted((f, b) for f, (b, _) in outs_ref.items())
+                ans = model([[S("writer-run"), [[p, b, m] for p, b, m in fs_model], step + 1, [[f, b] for f, b in outs]]],
+                            with_unicode=False)[0]
+                fs_model = ans["fs"]
+                model_files = {p: (b, m) for p, b, m in fs_model}
+                model_out = {"fs": fs_model, "actions": ans["actions"]}
+                if problem:
+                    check.violation("%s: %s" % (where, problem), case=case, impl=impl, model=model_out, failing_input=True)
+                    break
+                if assumption and not any(v.get("broken_obligation", "") and "generate_nonempty" in v["broken_obligation"] for v in check.violations):
+                    check.violation("%s: %s - the back end emitted nothing for a crate with annotated items" % (where, assumption),
+                                    case=case, impl=impl, model=model_out, failing_input=False,
+                                    broken="generate_nonempty (every back end writes a non-empty file for a crate with items): the "
+                                           "assumption under which C17.run_content / history_content speak about every module")
+                diff = None
+                if set(model_files) != set(real):
+                    diff = "files %s, the Writer model predicts %s" % (sorted(real), sorted(model_files))
+                else:
+                    for f, (b, mt) in real.items():
+                        mb, mm = model_files[f]
+                        rewritten = f not in real_prev or real_prev[f][1] != mt
+                        if b != mb:
+                            diff = "%s does not have the bytes the Writer model predicts" % f
+                        elif rewritten != (mm == step + 1):
+                            if rewritten and f == "Codable.swift" and check.known("swift-codable-rewritten", {"history": hist, "step": step}):
+                                continue
+                            diff = "%s was %s although the Writer model predicts %s" % (
+                                f, "rewritten (mtime changed)" if rewritten else "left untouched", "a write" if mm == step + 1 else "no write")
+                        if diff:
+                            break
+                if diff:
+                    check.violation("%s: %s" % (where, diff), case=case, impl=impl, model=model_out, failing_input=False,
+                                    broken="C17 tie: Writer.run (checkWriteFile) against the binary's writer, files not covered by the oracle")
+                    break
+                real_prev, prev_vi = real, vi
+            else:
+                if sum(1 for s_ in check.samples if isinstance(s_, dict) and s_.get("part") == "content-kind") < 2:
+                    check.sample({"part": "content-kind", "lang": lang, "multi_file": multi, "history": hist,
+                                  "shapes": [{c: f[c]["shape"] for c in crates} for f in facts],
+                                  "files_after_last_run": sorted(real_prev)}, limit=8)
 
 
 def run(check):
@@ -196,5 +499,12 @@ def run(check):
                 check.sample({"lang": lang, "multi_file": multi, "history": hist, "files_after_last_run": sorted(real_prev)})
         if mismatches:
             break
+    if not check.has_failing():
+        content_kind_part(check)
+        check.rule += ("; content-kind part: histories of 6-9 runs over 4-7 versions in which every crate changes the *kind* of "
+                       "its content (constants only, aliases only, one kind removed, nothing annotated, only rejected items, types "
+                       "moved to the neighbouring crate, ...) between ordinary versions, both modes, all six languages; after every "
+                       "run every file the run is responsible for - what a run into an empty location writes, and the module of "
+                       "every crate that holds annotated items when the run succeeds - has the bytes of that reference run")
     check.assumptions += ["the file system is modelled as a finite map path -> (bytes, mtime); generated bytes are taken from a fresh-directory reference run of the same binary",
                           "every back end writes a non-empty file for a non-empty crate (header or declaration); the empty-output hole of check_write_file is shown as a kernel-checked example"]
